@@ -31,7 +31,10 @@ func GetIndexLetters(document *gedcom.Document, livingVisibility LivingVisibilit
 		case LivingVisibilityShow, LivingVisibilityPlaceholder:
 			letterMap[getIndexLetter(individual)] = true
 		case LivingVisibilityHide:
-			// nothing
+			// Only living individuals are hidden.
+			if !individual.IsLiving() {
+				letterMap[getIndexLetter(individual)] = true
+			}
 		}
 	}
 
